@@ -38,15 +38,15 @@ def tf(b):
     return "TRUE" if b else "FALSE"
 
 
-def consts(devs, heads="{}", protos="{}"):
-    s = "CONSTANTS\n  Universe <- MCUniverse\n  Tables <- MCTables\n  HeadSel = %s\n  ProtoSel = %s\n" % (heads, protos)
+def consts(devs, heads="{}", protos="{}", slim=False):
+    s = "CONSTANTS\n  Universe <- MCUniverse\n  Tables <- MCTables\n  HeadSel = %s\n  ProtoSel = %s\n  Slim = %s\n" % (heads, protos, tf(slim))
     for d in DEVS:
         s += "  %s = %s\n" % (d, tf(devs.get(d, False)))
     return s
 
 
-def mc_cfg(devs, spec="USpec", inv=ALL_INV, props=(), heads="{}", protos="{}"):
-    s = "SPECIFICATION %s\n" % spec + consts(devs, heads, protos)
+def mc_cfg(devs, spec="USpec", inv=ALL_INV, props=(), heads="{}", protos="{}", slim=False):
+    s = "SPECIFICATION %s\n" % spec + consts(devs, heads, protos, slim)
     if inv:
         s += "INVARIANTS " + " ".join(inv) + "\n"
     if props:
@@ -54,13 +54,22 @@ def mc_cfg(devs, spec="USpec", inv=ALL_INV, props=(), heads="{}", protos="{}"):
     return s + "CHECK_DEADLOCK FALSE\n"
 
 
+def surviving(measured):
+    broken = set()
+    for d, on in measured.items():
+        if on:
+            broken |= BREAKS[d]
+    return [i for i in ALL_INV if i not in broken]
+
+
 def gen_cfg(devs, maxseg, cutmod, cutrem, early=True, heads="{}", protos="{}"):
+    # every generated state also satisfies the invariants that survive the measured deviations
     return ("INIT GInit\nNEXT GNext\n" + consts(devs, heads, protos) +
-            "  MaxSeg = %d\n  CutMod = %d\n  CutRem = %d\n  EarlyFin = %s\nINVARIANTS GenTypeOK\nCHECK_DEADLOCK FALSE\n"
-            % (maxseg, cutmod, cutrem, tf(early)))
+            "  MaxSeg = %d\n  CutMod = %d\n  CutRem = %d\n  EarlyFin = %s\nINVARIANTS GenTypeOK %s\nCHECK_DEADLOCK FALSE\n"
+            % (maxseg, cutmod, cutrem, tf(early), " ".join(surviving(devs))))
 
 
-def model_check(ctx, measured):
+def mc_documented(ctx, holder):
     doc = {}
     r = ctx.tlc("Ingress_MC", cfg_text=mc_cfg(doc), workers=8, timeout=600, coverage=ctx.thorough)
     ctx.log("MC documented design, whole universe (internal steps first): %d generated, %d distinct, depth %d, %.0fs"
@@ -71,39 +80,11 @@ def model_check(ctx, measured):
     if ctx.thorough and r.coverage0:
         ctx.inconclusive("actions never taken in the documented design: %s" % sorted(set(r.coverage0)))
         return False
-    # all interleavings (a timer may fire while unread bytes wait) on a reduced universe, with liveness
-    heads = ctx.pick('{"none", "v1"}', '{"none", "v1", "unk", "xfam", "v2"}')
-    r = ctx.tlc("Ingress_MC", cfg_text=mc_cfg(doc, spec="Spec", heads=heads, protos='{"tcp", "http"}'), workers=8, timeout=900)
-    ctx.log("MC documented design, every interleaving, tcp+http: %d generated, %d distinct, %.0fs" % (r.generated, r.distinct, r.wall))
-    if not ctx.need_tlc_ok(r, "Ingress MC (all interleavings)"):
-        return False
-    ctx.cover("mc-lagging", states=r.distinct, transitions=r.generated)
-    r = ctx.tlc("Ingress_MC", cfg_text=mc_cfg(doc, inv=["TypeOK"], props=["WaitBounded", "Delivered", "RtHonoured"],
-                                              heads='{"none", "v1", "xfam"}', protos=ctx.pick('{"tcp"}', '{"tcp", "tcps"}')),
-                workers=4, timeout=900)
-    ctx.log("MC liveness (WaitBounded, Delivered, RtHonoured): %d distinct, %.0fs" % (r.distinct, r.wall))
-    if not ctx.need_tlc_ok(r, "Ingress MC (liveness)"):
-        return False
-    ctx.cover("mc-liveness", states=r.distinct, transitions=r.generated)
-    # every named deviation is visible on the model
-    for d in DEVS:
-        r = ctx.tlc("Ingress_MC", cfg_text=mc_cfg({d: True}, inv=[VIOLATES[d]]), workers=4, timeout=300)
-        if r.timed_out or r.error or r.violated != VIOLATES[d]:
-            ctx.inconclusive("deviation %s was expected to violate %s on the model, got %s" % (d, VIOLATES[d], r.violated or r.error or "nothing"))
-            return False
-    r = ctx.tlc("Ingress_MC", cfg_text=mc_cfg({"RtLostOnFirstRead": True}, inv=["TypeOK"], props=["RtHonoured"], heads='{"none"}', protos='{"tcp"}'),
-                workers=4, timeout=300)
-    if "RtHonoured" not in r.out and "Temporal properties were violated" not in r.out:
-        ctx.inconclusive("RtLostOnFirstRead was expected to violate RtHonoured on the model")
-        return False
-    ctx.log("MC: each of the %d named deviations violates the documented property it is named for" % len(DEVS))
     # the design with the deviations measured on this tree keeps everything those deviations do not break
-    if any(measured.values()):
-        broken = set()
-        for d, on in measured.items():
-            if on:
-                broken |= BREAKS[d]
-        inv = [i for i in ALL_INV if i not in broken]
+    holder["ready"].wait()
+    measured = holder.get("measured")
+    if measured and any(measured.values()) and ctx.thorough:
+        inv = surviving(measured)
         r = ctx.tlc("Ingress_MC", cfg_text=mc_cfg(measured, inv=inv), workers=8, timeout=600)
         ctx.log("MC design with the measured deviations %s: %d distinct, %.0fs; holds: %s"
                 % (sorted(d for d in measured if measured[d]), r.distinct, r.wall, " ".join(inv)))
@@ -113,13 +94,49 @@ def model_check(ctx, measured):
     return True
 
 
+WHERE = {"SniffBeforeHeader": ('{"v1"}', '{"https+tcp+sni"}'), "RejectUnknown": ('{"unk"}', '{"tcp"}'), "EofInPrefixDrops": ('{"none"}', '{"tcp"}'),
+         "LaxPort": ('{"range"}', '{"tcp"}'), "LaxLF": ('{"lf"}', '{"tcp"}'), "RtLostOnFirstRead": ('{"none"}', '{"tcp"}')}
+
+
+def mc_rest(ctx):
+    doc = {}
+    # all interleavings (a timer may fire while unread bytes wait) on a reduced universe
+    heads = ctx.pick('{"v1"}', '{"none", "v1", "unk", "xfam", "v2"}')
+    protos = ctx.pick('{"tcp"}', '{"tcp", "http"}')
+    r = ctx.tlc("Ingress_MC", cfg_text=mc_cfg(doc, spec="Spec", heads=heads, protos=protos, slim=not ctx.thorough), workers=4, timeout=900)
+    ctx.log("MC documented design, every interleaving, %s %s: %d generated, %d distinct, %.0fs" % (protos, heads, r.generated, r.distinct, r.wall))
+    if not ctx.need_tlc_ok(r, "Ingress MC (all interleavings)"):
+        return False
+    ctx.cover("mc-lagging", states=r.distinct, transitions=r.generated)
+    r = ctx.tlc("Ingress_MC", cfg_text=mc_cfg(doc, inv=["TypeOK"], props=["WaitBounded", "Delivered", "RtHonoured"],
+                                              heads=ctx.pick('{"v1"}', '{"none", "v1", "xfam"}'), protos=ctx.pick('{"tcp"}', '{"tcp", "tcps"}'), slim=not ctx.thorough),
+                workers=4, timeout=900)
+    ctx.log("MC liveness (WaitBounded, Delivered, RtHonoured): %d distinct, %.0fs" % (r.distinct, r.wall))
+    if not ctx.need_tlc_ok(r, "Ingress MC (liveness)"):
+        return False
+    ctx.cover("mc-liveness", states=r.distinct, transitions=r.generated)
+    # every named deviation is visible on the model
+    for d in DEVS:
+        r = ctx.tlc("Ingress_MC", cfg_text=mc_cfg({d: True}, inv=[VIOLATES[d]], heads=WHERE[d][0], protos=WHERE[d][1]), workers=2, timeout=300)
+        if r.timed_out or r.error or r.violated != VIOLATES[d]:
+            ctx.inconclusive("deviation %s was expected to violate %s on the model, got %s" % (d, VIOLATES[d], r.violated or r.error or "nothing"))
+            return False
+    r = ctx.tlc("Ingress_MC", cfg_text=mc_cfg({"RtLostOnFirstRead": True}, inv=["TypeOK"], props=["RtHonoured"], heads='{"none"}', protos='{"tcp"}'),
+                workers=4, timeout=300)
+    if "RtHonoured" not in r.out and "Temporal properties were violated" not in r.out:
+        ctx.inconclusive("RtLostOnFirstRead was expected to violate RtHonoured on the model")
+        return False
+    ctx.log("MC: each of the %d named deviations violates the documented property it is named for" % len(DEVS))
+    return True
+
+
 def generate(ctx, measured):
     """histories of the design with the measured deviations"""
     path = os.path.join(ctx.tmp, "x04-hist.ndjson")
     if ctx.thorough:
         runs = [(2, 1, 0, "{}"), (3, 11, ctx.seed % 11, '{"v1", "none"}')]
     else:
-        runs = [(2, 6, ctx.seed % 6, "{}")]
+        runs = [(2, 8, ctx.seed % 8, "{}")]
     n0 = 0
     for maxseg, mod, rem, heads in runs:
         r = ctx.tlc("Ingress_Gen", cfg_text=gen_cfg(measured, maxseg, mod, rem, heads=heads), workers=8, timeout=900, json_sink=path)
@@ -135,14 +152,16 @@ def generate(ctx, measured):
 
 def corrupt(h, rng):
     """binding self-test: a history whose expectation is wrong in one place must be rejected"""
+    orig = json.dumps(h["h"])
     h = json.loads(json.dumps(h))
+    raw = h["c"]["proto"] in ("tcp", "tcps", "tcp+sni")
     cands = []
     for i, s in enumerate(h["h"]):
         if any(t.startswith("M:") for t in s["up"]):
             cands.append(("marker", i))
-        if len([t for t in s["up"] if not t.startswith("M:") and ":" not in t]) >= 2 and h["c"]["proto"] in ("tcp", "tcps", "tcp+sni"):
+        if raw and len([t for t in s["up"] if not t.startswith("M:")]) >= 2:
             cands.append(("drop", i))
-        if s["resps"] and s["resps"][-1] != "400":
+        if s["resps"] and s["resps"][-1] != "400" and len(s["resps"]) > (len(h["h"][i - 1]["resps"]) if i else 0):
             cands.append(("resp", i))
     if not cands:
         return None
@@ -151,13 +170,14 @@ def corrupt(h, rng):
         if what == "marker":
             s["up"] = [("M:peer" if t == "M:decl" else "M:decl") if t.startswith("M:") else t for t in s["up"]]
         elif what == "drop":
-            k = max(j for j, t in enumerate(s["up"]) if not t.startswith("M:")) if any(not t.startswith("M:") for t in s["up"]) else None
-            if k is not None and len(s["up"]) > k:
-                s["up"] = s["up"][:k - 1] + s["up"][k:] if k >= 1 and not s["up"][k - 1].startswith("M:") else s["up"]
+            k = [j for j, t in enumerate(s["up"]) if not t.startswith("M:")][0]
+            s["up"] = s["up"][:k] + s["up"][k + 1:]
         elif what == "resp":
-            st, kind, eff = s["resps"][-1].split(":")
-            other = "peer" if eff == "decl" else "decl"
-            s["resps"] = s["resps"][:-1] + ["%s:%s:%s" % (st, kind, other)]
+            k = len(h["h"][i]["resps"]) - 1
+            st, kind, eff = s["resps"][k].split(":")
+            s["resps"] = s["resps"][:k] + ["%s:%s:%s" % (st, kind, "peer" if eff == "decl" else "decl")] + s["resps"][k + 1:]
+    if json.dumps(h["h"]) == orig:
+        return None
     h["selftest"] = what
     return h
 
@@ -165,15 +185,116 @@ def corrupt(h, rng):
 def replay_histories(ctx, hs, label, copies=None, par=None):
     inp = os.path.join(ctx.tmp, "x04-%s.ndjson" % label)
     vf.write_ndjson(inp, hs)
-    env = {"VERIF_IN": inp, "X04_COPIES": copies or ctx.pick(4, 8), "X04_PAR": par or ctx.pick(96, 160)}
+    env = {"VERIF_IN": inp, "X04_COPIES": copies or ctx.pick(6, 8), "X04_PAR": par or ctx.pick(128, 160)}
     g = ctx.gotest(".", FILES, "^TestVerifX04$", env=env, timeout=ctx.pick(300, 840))
-    if "panic:" in g.out and ("go-proxyproto" in g.out or "fabio/proxy" in g.out) and g.summary is None:
+    if "panic:" in g.out and "panic: test timed out" not in g.out and ("go-proxyproto" in g.out or "fabio/proxy" in g.out) and g.summary is None:
         ctx.violation({"sub": "replay", "clause": "crash"}, "the process died while the histories were replayed:\n" + g.out[-3000:],
                       replay={"sub": "replay", "case": None})
         return None
     if not ctx.need_go_ok(g, "X04 replay (%s)" % label):
         return None
     return g
+
+
+class Par:
+    """runs jobs in threads; starts are staggered because the scratch directories of ctx are numbered"""
+    def __init__(self):
+        self.ts = []
+
+    def go(self, fn, *a):
+        import threading, time
+        box = {}
+
+        def w():
+            try:
+                box["r"] = fn(*a)
+            except Exception:
+                import traceback
+                box["err"] = traceback.format_exc()
+        t = threading.Thread(target=w)
+        t.start()
+        time.sleep(0.6)
+        self.ts.append((t, box))
+        return (t, box)
+
+    @staticmethod
+    def wait(h):
+        h[0].join()
+        if "err" in h[1]:
+            raise vf.Inconclusive("driver error in a parallel part:\n" + h[1]["err"])
+        return h[1].get("r")
+
+
+def sample(ctx, hs, rng):
+    """quick: a seeded sample that touches every (listener kind, header kind) class with plain, timed and rt histories;
+    thorough: every untimed history, the timed ones up to a budget"""
+    def cls(h):
+        return (h["c"]["proto"], h["c"]["pxy"], h["c"]["ropt"], h["c"]["rt"], h["s"]["head"], h["s"]["fam"])
+    by = {}
+    for h in hs:
+        evs = {s["ev"] for s in h["h"]}
+        kind = "rt" if "rt" in evs else "timeout" if "timeout" in evs else "plain"
+        by.setdefault((cls(h), kind), []).append(h)
+    quota = {"plain": ctx.pick(3, 10 ** 9), "timeout": ctx.pick(3, 40), "rt": ctx.pick(1, 5)}
+    out = []
+    for k in sorted(by, key=str):
+        rng.shuffle(by[k])
+        out += by[k][:quota[k[1]]]
+    return out
+
+
+def race(ctx, measured):
+    """C->S: connections whose sends race the header timer, recorded and validated by Ingress_Trace"""
+    tr = os.path.join(ctx.tmp, "x04-race.ndjson")
+    n = ctx.pick(160, 900)
+    g = ctx.gotest(".", FILES, "^TestVerifX04Race$", env={"X04_TRACE": tr, "X04_RACES": n, "X04_COPIES": ctx.pick(3, 6)}, timeout=300)
+    if not ctx.need_go_ok(g, "X04 race recording"):
+        return
+    cfg = "SPECIFICATION TSpec\n" + consts(measured) + "VIEW TView\nCONSTRAINT HW\nINVARIANTS TraceInv\nPOSTCONDITION Accepted\nCHECK_DEADLOCK FALSE\n"
+    r = ctx.tlc("Ingress_Trace", cfg_text=cfg, workers=1, env={"VERIF_TRACE": tr}, timeout=600)
+    lines = open(tr).read().splitlines()
+    outcomes = {}
+    cur = None
+    for x in lines:
+        e = json.loads(x)
+        if e["ev"] == "conn":
+            cur = e
+        if e["ev"] == "end":
+            outcomes[(cur["proto"], cur["ropt"], cur["pxy"], cur["head"], e["marker"], e["off"], tuple(e["resps"]))] = 1
+    ctx.log("race: %d connections recorded (%d events, %d distinct outcomes), Ingress_Trace: %d states, %.0fs, %s"
+            % (g.summary["recorded"], len(lines), len(outcomes), r.distinct, r.wall, "accepted" if r.ok else (r.violated or r.error)))
+    if r.violated == "postcondition":
+        import re
+        m = re.search(r'X04-TRACE-STUCK",\s*(\d+)', r.out)
+        at = int(m.group(1)) if m else 0
+        i = at - 1
+        while i > 0 and '"conn"' not in lines[i]:
+            i -= 1
+        conn = [json.loads(x) for x in lines[i:at]]
+        ctx.violation({"sub": "race", "clause": "trace-rejected", "proto": conn[0].get("proto"), "head": conn[0].get("head")},
+                      "a recorded connection is not a behaviour of Ingress (no order of the unlogged steps explains it): %s" % json.dumps(conn),
+                      replay={"sub": "race", "case": conn})
+        return
+    if not ctx.need_tlc_ok(r, "Ingress_Trace"):
+        return
+    # binding self-test: one falsified final observation must be rejected
+    bad = list(lines)
+    idx = [i for i, x in enumerate(bad) if '"ev":"end"' in x and '"upeof":"y"' in x]
+    if not idx:
+        ctx.inconclusive("race: no connection reached its upstream")
+        return
+    i = idx[ctx.seed % len(idx)]
+    e = json.loads(bad[i])
+    e["n"] = e["n"] + 1
+    bad[i] = json.dumps(e, separators=(",", ":"))
+    trb = tr + ".bad"
+    open(trb, "w").write("\n".join(bad) + "\n")
+    rb = ctx.tlc("Ingress_Trace", cfg_text=cfg, workers=1, env={"VERIF_TRACE": trb}, timeout=600)
+    if rb.violated != "postcondition":
+        ctx.inconclusive("binding self-test: a falsified observation (one byte-token more at the upstream) was accepted by Ingress_Trace")
+        return
+    ctx.cover("race", traces_validated_against_impl=g.summary["recorded"], states=r.distinct, transitions=r.generated,
+              distinct_nontrivial=len(outcomes))
 
 
 def run(ctx):
@@ -183,58 +304,57 @@ def run(ctx):
         "timer moves are established by the observable change they cause; where the specification says nothing observable changes the harness waits 4x the configured time-out (the behaviour is a time bound), a failing history is repeated and only counts when it fails three times without a process stall",
         "PROXY protocol version 2 is outside the documentation (v1 only): a v2 header is specified as payload",
     ]
+    import threading
+    par = Par()
+    holder = {"ready": threading.Event()}
+    doc = par.go(mc_documented, ctx, holder)
+    rest = par.go(mc_rest, ctx)
     measured = probe(ctx)
+    holder["measured"] = measured
+    holder["ready"].set()
     if measured is None:
-        return
-    if not model_check(ctx, measured):
+        Par.wait(doc), Par.wait(rest)
         return
     hs = generate(ctx, measured)
     if hs is None:
+        Par.wait(doc), Par.wait(rest)
         return
     rng = random.Random(ctx.seed)
     for i, h in enumerate(hs):
         h["id"] = i
     total = len(hs)
-    if not ctx.thorough:
-        # a seeded sample that touches every (listener kind, header kind) class
-        by = {}
-        for h in hs:
-            by.setdefault((h["c"]["proto"], h["c"]["pxy"], h["c"]["ropt"], h["c"]["rt"], h["s"]["head"]), []).append(h)
-        pick = []
-        for k in sorted(by, key=str):
-            rng.shuffle(by[k])
-            pick += by[k][:8]
-        hs = pick
-    else:
-        timed = [h for h in hs if any(s["ev"] in ("timeout", "rt") for s in h["h"])]
-        untimed = [h for h in hs if not any(s["ev"] in ("timeout", "rt") for s in h["h"])]
-        rng.shuffle(timed)
-        hs = untimed + timed[:12000]
+    hs = sample(ctx, hs, rng)
     self = []
     pool = list(hs)
     rng.shuffle(pool)
     for h in pool:
         c = corrupt(h, rng)
-        if c is not None and c != h:
+        if c is not None:
             self.append(c)
         if len(self) >= 24:
             break
     ctx.log("replaying %d of %d histories (+%d corrupted ones that must be rejected)" % (len(hs), total, len(self)))
     g = replay_histories(ctx, hs + self, "replay")
-    if g is None:
-        return
-    s = g.summary
-    ctx.log("replay: %s" % {k: s[k] for k in ("histories", "voids", "retries", "selftest_rejected", "selftest_missed", "classes", "lanes")})
-    if s["selftest_missed"] or s["selftest_rejected"] < len(self):
-        ctx.inconclusive("binding self-test: %d of %d corrupted histories were not rejected" % (len(self) - s["selftest_rejected"], len(self)))
-    nvoid = len(g.of_kind("void"))
-    if nvoid > max(20, len(hs) // 20):
-        ctx.inconclusive("%d of %d histories could not be judged (stalls / slow moves)" % (nvoid, len(hs)))
-    ctx.take_failures(g, "replay")
-    ctx.cover("replay", traces_validated_against_impl=s["histories"] - len(self) - nvoid, evaluations=s["histories"],
-              distinct_nontrivial=s["classes"], samples=[json.dumps(h)[:600] for h in hs[:3]],
-              rule="every move of every history: upstream bytes, effective address (XFF, Forwarded, X-Real-Ip, allow=ip:, $remote_addr, outgoing PROXY header), answers, close",
-              exhaustive=ctx.thorough)
+    if g is not None:
+        s = g.summary
+        ctx.log("replay: %s" % {k: s[k] for k in ("histories", "voids", "retries", "selftest_rejected", "selftest_missed", "classes", "lanes", "replay_ms")})
+        for m in g.of_kind("selftest-miss"):
+            ctx.log("self-test miss (%s): %s" % (m.get("what"), json.dumps(m.get("case"))[:1500]))
+        if s["selftest_missed"] or s["selftest_rejected"] < len(self):
+            ctx.inconclusive("binding self-test: %d of %d corrupted histories were not rejected" % (len(self) - s["selftest_rejected"], len(self)))
+        nvoid = len(g.of_kind("void"))
+        if nvoid > max(20, len(hs) // 20):
+            ctx.inconclusive("%d of %d histories could not be judged (stalls / slow moves)" % (nvoid, len(hs)))
+        ctx.take_failures(g, "replay")
+        ctx.cover("replay", traces_validated_against_impl=s["histories"] - len(self) - nvoid, evaluations=s["histories"],
+                  distinct_nontrivial=s["classes"], samples=[json.dumps(h)[:600] for h in hs[:3]],
+                  rule="every move of every history: upstream bytes, effective address (XFF, Forwarded, X-Real-Ip, allow=ip:, $remote_addr, outgoing PROXY header), answers, close",
+                  exhaustive=ctx.thorough)
+        race(ctx, measured)
+    ok1 = Par.wait(doc)
+    ok2 = Par.wait(rest)
+    if ok1 and ok2:
+        ctx.log("model checking: all parts done")
 
 
 def probe(ctx):
@@ -265,9 +385,19 @@ def probe(ctx):
 def replay(ctx, rp):
     r = rp.get("replay") or {}
     if r.get("sub") == "replay" and r.get("case"):
-        measured = probe(ctx)
         g = replay_histories(ctx, [r["case"]], "one", copies=1, par=1)
         if g is not None:
             ctx.take_failures(g, "replay")
+    elif r.get("sub") == "race" and r.get("case"):
+        measured = probe(ctx)
+        if measured is None:
+            return
+        tr = os.path.join(ctx.tmp, "x04-one.ndjson")
+        vf.write_ndjson(tr, r["case"])
+        cfg = "SPECIFICATION TSpec\n" + consts(measured) + "VIEW TView\nCONSTRAINT HW\nINVARIANTS TraceInv\nPOSTCONDITION Accepted\nCHECK_DEADLOCK FALSE\n"
+        t = ctx.tlc("Ingress_Trace", cfg_text=cfg, workers=1, env={"VERIF_TRACE": tr}, timeout=300)
+        if t.violated == "postcondition":
+            ctx.violation({"sub": "race", "clause": "trace-rejected"}, "the recorded connection is rejected by Ingress_Trace: %s" % json.dumps(r["case"]),
+                          replay=r)
     else:
         run(ctx)
